@@ -254,6 +254,7 @@ def table(full=True):
         u = ["unevaluated_expr", a]
         out += [u, ["mul", u, y], ["div", y, ["add", ["abs", u], I(1)]], ["add", u, z], ["sub", z, u], ["mul", I(2), u],
                 ["pow", u, I(2)], ["sin", u], ["div", u, ["unevaluated_expr", I(2)]], ["div", t, u]]
+    out += [["piecewise", L(L(x, c1), L(y, c2))], ["add", ["piecewise", L(L(x, c1))], z]]     # no default: must throw
     out += [["oo"], ["noo"], ["Lt", x, ["oo"]], ["Gt", x, ["noo"]], ["max", L(x, ["noo"])], ["min", L(x, ["oo"], y)],
             ["constant", "I"], ["function_symbol", "f", L(x)], ["zeta", x], ["lambertw", x], ["conjugate", x],
             ["kronecker_delta", x, y], ["beta", x, y], ["digamma", x]]
